@@ -55,6 +55,13 @@ Theorem oracles_valid : valid o_id /\ valid o_rev /\ forall k, valid (o_rot k).
 Proof. exact (conj o_id_valid (conj o_rev_valid o_rot_valid)). Qed.
 Print Assumptions oracles_valid.
 
+(* [wf_net] is decidable: the correspondence driver evaluates [wf_netb] on every raw network dumped
+   from the implementation through its getters (initial and post-history states), so the theorems
+   above apply to exactly the networks the run has seen. *)
+Theorem wf_netb_correct : forall r, wf_netb r = true -> wf_net r.
+Proof. exact wf_netb_sound. Qed.
+Print Assumptions wf_netb_correct.
+
 Theorem wf_net_example : wf_net ex_rnet.
 Proof. exact ex_rnet_wf. Qed.
 Print Assumptions wf_net_example.
